@@ -176,11 +176,17 @@ def run(run):
             versions = [(v, None) for v in wmo] + [(13, l) for l in locs]
         else:
             rs = random.Random(seed())
-            versions = [(33, None), (13, locs[seed() % 2])] + [(v, None) for v in rs.sample([v for v in wmo if v != 33], 2)]
+            versions = [(33, None), (13, locs[seed() % 2]), (13, None)] + [(v, None) for v in rs.sample([v for v in wmo if v not in (13, 33)], 2)]
+        # a group WITH local tables is built before the plain group of the same master version (and, thorough, after it
+        # as well): what one group loads must not show up in another
+        if thorough:
+            versions = [(13, locs[0])] + versions
         from pybufrkit.descriptors import flat_member_ids
         nseq = nel = 0
+        spec_keys, groups = {}, {}
         for mv, loc in versions:
             g = table_group(mv, loc)
+            groups[(mv, loc)] = g
             for what, inv in (('tabled', 'EmitTableD'), ('tableb', 'EmitTableB')):
                 cs = consts(what, mversion=mv, local=loc)
                 name = 'MC_%s_%d_%s' % (what, mv, 'l%d' % loc[2] if loc else 'wmo')
@@ -190,6 +196,7 @@ def run(run):
                 run.add_tlc(res, 'Table %s of version %d%s read by the specification' % (what[-1].upper(), mv, ' + local %r' % (loc,) if loc else ''))
                 for rec in res.iter_emitted():
                     run.traces += 1
+                    spec_keys.setdefault((mv, loc), set()).add(rec['seq'] if what == 'tabled' else rec['id'])
                     if what == 'tabled':
                         nseq += 1
                         d = g.lookup(rec['seq'])
@@ -211,6 +218,22 @@ def run(run):
                         if not ok:
                             run.violation(('tableb', 'attributes', 'differ', 'v%d' % mv), 'element %06d of version %d: library %r ref %r, table file %r ref %r' % (
                                 rec['id'], mv, mine, d.refval, spec, rec['ref']), {'kind': 'elem', 'id': rec['id'], 'version': mv, 'local': loc})
+        # nothing else is defined: every key that ANY of the compared table selections knows is defined in a group exactly
+        # when the files of that group's own selection define it (checked after all groups have been built)
+        universe = set().union(*spec_keys.values()) if spec_keys else set()
+        nprobe = 0
+        for (mv, loc), g in groups.items():
+            for k in sorted(universe):
+                nprobe += 1
+                lib_defined = not type(g.lookup(k)).__name__.startswith('Undefined')
+                if lib_defined != (k in spec_keys[(mv, loc)]):
+                    run.violation(('tables', 'key-set', 'extra-entry' if lib_defined else 'missing-entry', 'D' if k >= 300000 else 'B'),
+                                  'descriptor %06d is %s in the group of version %d%s although its table files say otherwise' % (
+                                      k, 'defined' if lib_defined else 'undefined', mv, ' + local %r' % (loc,) if loc else ''),
+                                  {'kind': 'keyset', 'id': k, 'version': mv, 'local': loc, 'built_in_order': [list(map(str, v)) for v in versions]})
+                    break
+        run.traces += nprobe
+        run.notes['definedness_probes'] = nprobe
         run.notes['table_d_sequences_compared'] = nseq
         run.notes['table_b_elements_compared'] = nel
         # ---------------- version selection
